@@ -106,6 +106,14 @@ def run(tier, seed, open_findings):
         d = d.replace('<t:item ', '<t:item xmlns:t="urn:t" ', 1 + (k == 2))
         if k: d = d.replace('<t:name>', '<t:name xmlns:t="urn:t">', 1)
         docs.append(d)
+    # documents larger than the parser's read block (64 KiB): faults behind the first block (a duplicated key, a dangling key reference, a bad value)
+    for i in range(4 if tier == 'thorough' else 2):
+        nit = 1000 + 300 * i; d = docgen.gen(rng, nit)
+        head, _, tail = d.rpartition(f'code="{nit - 1}"')
+        d = head + f'code="{rng.randrange(5)}"' + tail
+        k = d.rfind('codeRef="')
+        if k > 0 and i % 2: d = d[:k] + 'codeRef="99999' + d[d.index('"', k + 9):]
+        docs.append(d)
     docs += ['<t:r xmlns:t="urn:t"/>', '<t:r xmlns:t="urn:t"></t:r>', '<t:r xmlns:t="urn:t">text</t:r>']       # a root without chunks
     jobs = [(ver, d) for d in docs for ver in ('1.0', '1.1')]
     docs2 = [gen2(rng) for _ in range(n // 3)]
